@@ -186,33 +186,36 @@ def parseAnonLabel : Str → Option Nat
   | 'L' :: ds => if ds.all Char.isDigit then parseDec ds else none
   | _ => none
 
+/-- `parent.own` → (some parent text, own); no dot → (none, text) -/
+def splitParent (s : Str) : Option Str × Str :=
+  match splitAt? '.' s with
+  | some (p, rest) => (some p, rest)
+  | none => (none, s)
+
+/-- the parent a `parent.` prefix names: an anonymous label `L7` or a named global label -/
+def resolveParent (ls : List LabelEntry) : Option Str → Option (Option Nat)
+  | none => some none
+  | some p =>
+    match parseAnonLabel p with
+    | some pid => if (ls[pid]?).any (fun pe => pe.name.isEmpty) then some (some pid) else none
+    | none => (labelIdByName ls none p).map some
+
+/-- the label's own part: `L7@name` (anonymous label that carries a name), `L7` (only without parent), or a name -/
+def resolveOwn (ls : List LabelEntry) (hasParentTxt : Bool) (parent : Option Nat) (own : Str) : Option Nat :=
+  match splitAt? '@' own with
+  | some (lid, name) =>
+    (parseAnonLabel lid).bind fun id =>
+      if (ls[id]?).any (fun le => le.type = 0 ∧ le.name == name ∧ le.parent == parent ∧ !name.isEmpty) then some id else none
+  | none =>
+    match parseAnonLabel own with
+    | some id => if !hasParentTxt ∧ (ls[id]?).any (fun le => le.name.isEmpty) then some id else none
+    | none => labelIdByName ls parent own
+
 def parseLabel (env : Env) (s : Str) : Option Nat :=
   match env.labels with
   | none => parseAnonLabel s
   | some ls =>
-    -- `L7@name` (anonymous label that carries a name), possibly after `parent.`
-    let (parentTxt, own) : Option Str × Str :=
-      match splitAt? '.' s with
-      | some (p, rest) => (some p, rest)
-      | none => (none, s)
-    let parent? : Option (Option Nat) :=
-      match parentTxt with
-      | none => some none
-      | some p =>
-        match parseAnonLabel p with
-        | some pid => if (ls[pid]?).any (fun pe => pe.name.isEmpty) then some (some pid) else none
-        | none => (labelIdByName ls none p).map some
-    match parent? with
-    | none => none
-    | some parent =>
-      match splitAt? '@' own with
-      | some (lid, name) =>
-        (parseAnonLabel lid).bind fun id =>
-          if (ls[id]?).any (fun le => le.type = 0 ∧ le.name == name ∧ le.parent == parent ∧ !name.isEmpty) then some id else none
-      | none =>
-        match parseAnonLabel own with
-        | some id => if parentTxt.isNone ∧ (ls[id]?).any (fun le => le.name.isEmpty) then some id else none
-        | none => labelIdByName ls parent own
+    (resolveParent ls (splitParent s).1).bind fun parent => resolveOwn ls (splitParent s).1.isSome parent (splitParent s).2
 
 /-! ## registers -/
 
